@@ -294,6 +294,89 @@ func init() {
 		}
 		fmt.Fprintf(b, "]\n\n")
 
+		// ---- 2c. inventory of every site that gives a tls.Config state which outlives one connection or alters
+		// session resumption: ClientSessionCache, SessionTicketsDisabled, SessionTicketKey, WrapSession,
+		// UnwrapSession (assignment or keyed literal element) and calls of SetSessionTicketKeys.  With such state
+		// crypto/tls may RESUME a session - no certificate exchange, no verification against the pools of the
+		// config in force now.  kind: "nil" / "true" / "false" (that literal), "percall" (the value is a tls.NewLRUClientSessionCache(...) call made
+		// inside a function, i.e. a cache that lives and dies with that one config), else "shared:<expression>".
+		sessFields := map[string]bool{"ClientSessionCache": true, "SessionTicketsDisabled": true, "SessionTicketKey": true,
+			"WrapSession": true, "UnwrapSession": true}
+		type ssite struct{ file, fn, field, kind string }
+		var ssites []ssite
+		sessKind := func(fn string, v ast.Expr) string {
+			if id, ok := v.(*ast.Ident); ok && (id.Name == "nil" || id.Name == "true" || id.Name == "false") {
+				return id.Name
+			}
+			if call, ok := v.(*ast.CallExpr); ok && c05src(call.Fun) == "tls.NewLRUClientSessionCache" && fn != "<package level>" {
+				return "percall"
+			}
+			return "shared:" + c05src(v)
+		}
+		for _, rel := range files {
+			f := parse(rel)
+			for _, d := range f.Decls {
+				name := "<package level>"
+				if fn, ok := d.(*ast.FuncDecl); ok {
+					name = c05funcName(fn)
+				}
+				ast.Inspect(d, func(x ast.Node) bool {
+					switch n := x.(type) {
+					case *ast.AssignStmt:
+						for i, l := range n.Lhs {
+							if sel, ok := l.(*ast.SelectorExpr); ok && sessFields[sel.Sel.Name] {
+								k := "shared:<multi-value>"
+								if len(n.Rhs) == len(n.Lhs) {
+									k = sessKind(name, n.Rhs[i])
+								}
+								ssites = append(ssites, ssite{rel, name, sel.Sel.Name, k})
+							}
+						}
+					case *ast.CompositeLit:
+						if n.Type != nil && c05src(n.Type) != "tls.Config" {
+							return true
+						}
+						for _, e := range n.Elts {
+							if kv, ok := e.(*ast.KeyValueExpr); ok {
+								if id, ok := kv.Key.(*ast.Ident); ok && sessFields[id.Name] {
+									ssites = append(ssites, ssite{rel, name, id.Name, sessKind(name, kv.Value)})
+								}
+							}
+						}
+					case *ast.CallExpr:
+						if sel, ok := n.Fun.(*ast.SelectorExpr); ok && sel.Sel.Name == "SetSessionTicketKeys" {
+							ssites = append(ssites, ssite{rel, name, "SetSessionTicketKeys", "shared:<call>"})
+						}
+					}
+					return true
+				})
+			}
+		}
+		sort.Slice(ssites, func(i, j int) bool {
+			a, c := ssites[i], ssites[j]
+			if a.file != c.file {
+				return a.file < c.file
+			}
+			if a.fn != c.fn {
+				return a.fn < c.fn
+			}
+			return a.field < c.field
+		})
+		fmt.Fprintf(b, "/-- every site in non-test code that gives a tls.Config session-resumption state (ClientSessionCache, SessionTicketsDisabled, SessionTicketKey, WrapSession, UnwrapSession set by assignment or in a composite literal, SetSessionTicketKeys called): (file, function, field, kind), sorted; kind = nil | true | false | percall (a tls.NewLRUClientSessionCache(...) call inside a function: the cache lives and dies with that one config) | shared:<expression> -/\ndef tlsSessionStateSites : List (String × String × String × String) := [\n")
+		shared := false
+		for i, v := range ssites {
+			sep := ","
+			if i == len(ssites)-1 {
+				sep = ""
+			}
+			if v.field == "ClientSessionCache" && strings.HasPrefix(v.kind, "shared:") {
+				shared = true
+			}
+			fmt.Fprintf(b, "  (%s, %s, %s, %s)%s\n", leanStr05(v.file), leanStr05(v.fn), leanStr05(v.field), leanStr05(v.kind), sep)
+		}
+		fmt.Fprintf(b, "]\n")
+		fmt.Fprintf(b, "/-- true iff some site hands crypto/tls a ClientSessionCache that outlives the config it is attached to (a package-level or otherwise shared cache): sessions are then resumed across connections -/\ndef clientSessionCacheShared : Bool := %v\n\n", shared)
+
 		fmt.Fprintf(b, "/-- every assignment to a field `InsecureSkipVerify` in non-test code: (file, function, value, enclosing conditions) -/\ndef isvSites : List (String × String × String × String) := [\n")
 		for i, s := range sites {
 			sep := ","
